@@ -147,7 +147,7 @@ def source_registrations(tree):
 def header_defines(tree):
     src = strip_comments(read(tree, "src/include/janet.h"))
     d = {}
-    for m in re.finditer(r'#define\s+(JANET_SANDBOX_\w+)\s+(\d+)\s*$', src, re.M):
+    for m in re.finditer(r'#define\s+(JANET_SANDBOX_\w+|JANET_FILE_(?:WRITE|READ|APPEND|UPDATE))\s+(\d+)\s*$', src, re.M):
         d[m.group(1)] = int(m.group(2))
     if len(d) < 10:
         raise ExtractError("JANET_SANDBOX_* defines not found")
@@ -340,6 +340,14 @@ def extract(build, ir_text=None):
     # ---- nodes
     fn_ids = {n: k for k, n in enumerate(M.slice)}
     M.mode_relevant = _mode_relevant()
+    capsrc = open(CAP_LEAN).read()
+    M.mode_functions = dict(re.findall(r'\("(\w+)",\s*"([\w-]+)"\)', re.search(r'def modeFunctions[^\n]*', capsrc).group(0)))
+    M.file_flags_relevant = 15
+    for mf in M.mode_functions:
+        if mf not in fdefs:
+            raise ExtractError("Cap.modeFunctions: function %s does not exist" % mf)
+        if mf not in fn_ids:
+            raise ExtractError("Cap.modeFunctions: function %s is not in the slice" % mf)
     M.mode_tracked, M.mode_untracked = [], []
     nodes = []            # (fn id, op tuple, succ node ids)   op: ('nop',) ('assert',m) ('libc',fn,name) ('call',g) ('havoc',why) ('ret',)
     entry_of = {}
@@ -396,6 +404,8 @@ def _mode_track(M, f):
     ("unknown": Cap.needOpen then requires both capabilities)."""
     REL = M.mode_relevant
     out = {}
+    if f.name in M.mode_functions:
+        return _mode_track_result(M, f)
     sites = []
     for b in f.blocks:
         for k, i in enumerate(b.insts):
@@ -469,6 +479,60 @@ def _mode_track(M, f):
         for sid in site_var:
             out[sid] = ("modeSet", 3)
         M.mode_untracked.append(f.name)
+    return out
+
+
+def _mode_track_result(M, f):
+    """Functions of Cap.modeFunctions (io.c checkflags): track the i32 local that is built with `|= constant` and emit the
+    pseudo call where its value is copied out (into the return slot)."""
+    REL = M.file_flags_relevant
+    pseudo = M.mode_functions[f.name]
+    ld = r'%[\w.]+ = load i32, i32\* '
+    cands = set()
+    for b in f.blocks:
+        defs = {}
+        for i in b.insts:
+            t = i.text
+            if " = " in t:
+                defs[t.split(" = ")[0]] = t
+            ms = re.match(r'store i32 (%[\w.]+), i32\* (%[\w.]+),', t)
+            if ms and re.match(r'%[\w.]+ = or i32 ', defs.get(ms.group(1), "")):
+                cands.add(ms.group(2))
+    if len(cands) != 1:
+        raise ExtractError("%s: expected exactly one `x |= constant` local, found %s" % (f.name, sorted(cands)))
+    var = cands.pop()
+    out = {}
+    npseudo = 0
+    pat = re.compile(r'(?<![\w.])' + re.escape(var) + r'(?![\w.])')
+    for b in f.blocks:
+        defs = {}
+        for i in b.insts:
+            t = i.text
+            if " = " in t:
+                defs[t.split(" = ")[0]] = t
+            ms = re.match(r'store i32 (\S+), i32\* (%[\w.]+),', t)
+            if ms and ms.group(2) != var and re.match(ld + re.escape(var) + r',', defs.get(ms.group(1), "")):
+                out[id(i)] = ("libc", f.name, pseudo)          # the tracked value leaves the function here
+                npseudo += 1
+                continue
+            if not pat.search(t):
+                continue
+            if re.match(re.escape(var) + r' = alloca i32\b', t) or re.match(ld + re.escape(var) + r',', t):
+                continue
+            if not ms or ms.group(2) != var:
+                raise ExtractError("%s: untracked use of the flags local: %s" % (f.name, t[:100]))
+            v = ms.group(1)
+            if re.match(r'^-?\d+$', v):
+                out[id(i)] = ("modeSet", int(v) & REL)
+                continue
+            mo = re.match(r'%[\w.]+ = or i32 (\S+), (\S+)$', defs.get(v, ""))
+            if mo and re.match(r'^-?\d+$', mo.group(2)) and re.match(ld + re.escape(var) + r',', defs.get(mo.group(1), "")):
+                out[id(i)] = ("modeOr", int(mo.group(2)) & REL)
+                continue
+            raise ExtractError("%s: flags local assigned in an unexpected way: %s" % (f.name, t[:100]))
+    if npseudo == 0:
+        raise ExtractError("%s: the flags local is never handed back" % f.name)
+    M.mode_tracked.append((f.name, var))
     return out
 
 
@@ -614,6 +678,8 @@ def need(M, fn, name, md=0):
         return []
     if name in OPEN_FLAGS_ARG:
         return need_open(md)
+    if name == "janet-file-flags":
+        return ([32] if md & 13 else []) + ([64] if (md & 2) or (md & 4 and md & 8) else [])
     return M.sens.get(name, [])
 
 
